@@ -55,7 +55,7 @@ def cache_dir():
     return d
 
 
-def prune_cache(keep=2):
+def prune_cache(keep=4):
     if not os.path.isdir(BUILD):
         return
     ds = [os.path.join(BUILD, x) for x in os.listdir(BUILD) if re.fullmatch(r'[0-9a-f]{16}', x)]
